@@ -206,17 +206,19 @@ template <class T> static void line_line_case (vp::Ctx& c, const char* tn)
     quad den = A * C - B * B; // = |d1 x d2|^2 >= 0
     quad s2  = den / (A * C); // sin^2 of the angle
     if (s2 < 0) s2 = 0;
-    bool exact_parallel = !(den > 0);
+    // exactly parallel directions: the cross product of two T vectors is computed without rounding in quad when it
+    // vanishes (106-bit products, exact cancellation), so this test is exact
+    Q3   CR = cross (D1, D2);
+    bool exact_parallel = CR.x == 0 && CR.y == 0 && CR.z == 0;
     quad t1x = 0, t2x = 0, distx;
-    if (!exact_parallel)
+    if (!exact_parallel && den > 0)
     {
         t1x   = (B * E - C * D) / den;
         t2x   = (A * E - B * D) / den;
-        distx = len (W + D1 * t1x - D2 * t2x);
+        distx = len (W + D1 * t1x - D2 * t2x); // (only used when sin^2 >= 1024 eps, far above quad noise)
     }
     else
-        distx = len (W - D1 * (D / A));
-    if (s2 < (quad) 1e-60) distx = len (W - D1 * (D / A));
+        distx = len (W - D1 * (D / A)); // parallel: distance from a point of one line to the other
     Q3   X1 = P1 + D1 * t1x, X2 = P2 + D2 * t2x;
     quad S  = len (W) + len (P1) + len (P2) + (quad) 1e-30;
     // conditioning: the parameters are quotients by sin^2; strict checks while K*eps/sin^2 stays small
@@ -264,10 +266,11 @@ template <class T> static void line_line_case (vp::Ctx& c, const char* tn)
     {
         T    got  = l1.distanceTo (l2);
         quad sn   = sqrtq (s2);
-        // a correct evaluation divides by |d1 x d2|: error ~ eps*S/sin; for (nearly) parallel lines the
-        // point-line distance is expected (error ~ eps*S), checked whenever the bound is meaningful
+        // a correct evaluation divides by |d1 x d2|: error ~ eps*S/sin.  For exactly parallel lines the point-line
+        // distance is expected (error ~ eps*S).  Nearly parallel, not exactly parallel lines are skipped: their true
+        // distance is attained ~|w|/sin away and cannot be resolved in T (nor demanded of any implementation).
         quad unitD = eps * S / (strong ? sn : 1);
-        bool check = strong || exact_parallel || s2 < eps * eps;
+        bool check = strong || exact_parallel;
         if (check)
         {
             c.label (LL_DIST_STRICT);
@@ -939,10 +942,8 @@ template <class T> static void tri_case (vp::Ctx& c, const char* tn)
     c.nt (true);
     if (expect)
     {
-        quad m2 = bmin;
-        int  small = (bx[0] < (quad) 0.02) + (bx[1] < (quad) 0.02) + (bx[2] < (quad) 0.02);
+        int small = (bx[0] < (quad) 0.02) + (bx[1] < (quad) 0.02) + (bx[2] < (quad) 0.02);
         c.label (small >= 2 ? TR_NEAR_VERTEX : small == 1 ? TR_NEAR_EDGE : TR_INTERIOR);
-        (void) m2;
     }
     else
         c.label (TR_OUTSIDE);
